@@ -16,9 +16,21 @@ Technique: bounded-exhaustive exploration of every random input of `Region.unifo
     weights, `random.random()` compared with a constant is split exactly (union multiplicity
     coin), numpy draws of trimesh / VoxelRegion are answered by the same lattice), one attempt
     per execution (draw budget; retry loops are cut and counted as rejection).
-    Oracle (models/measure_c03.py): membership of every produced point in all three
-    coordinates, support (no hole larger than a lattice box image deep inside the region),
-    uniformity: interval test per cell, see `_judge` for the derivation of the bound.
+    Oracle (models/measure_c03.py), all deterministic:
+    (a) membership of every produced point in all three coordinates by the analytic predicate of
+        the composed set (points within tolerance of a boundary are skipped and counted) and, on a
+        regular sub-lattice, by the region's own containsPoint;
+    (b) support: every cell of a fine grid that certainly contains a piece of the region is met
+        by the image of some lattice box (`_support`);
+    (c) uniformity, interval test (`_judge`): rigorous lower / upper bounds of the probability of
+        every cell (and of every atom "in A only / in B only / in both" of a composition) from the
+        lattice against lower / upper bounds of its share of the measure from the quadrature;
+    (d) uniformity, density test (`_density`): the mass of every uncut lattice box divided by the
+        volume of its image (finite-difference Jacobian), summed over the boxes of all branches
+        covering the same place, is one constant equal to P(accept) / measure, within 5 %.
+    A retry loop inside one primitive sampler (polygon triangle rejection) keeps its discrete
+    branch: such branches are renormalised per branch (`analyse`), while a RejectionException
+    restarts the whole sample and conditions globally.
 """
 
 from __future__ import annotations
